@@ -8,7 +8,7 @@ use crate::report::{Replay, Violation};
 use crate::subject::*;
 use crate::util::{show, Buf, Rd, SplitMix, J};
 use abyssiniandb::filedb::FileDbMap;
-use abyssiniandb::{DbI64, DbMap, DbMapKeyType, DbU64, DbVu64, DbXxx, DbXxxBase, HashValue};
+use abyssiniandb::{DbI64, DbMap, DbU64, DbVu64, DbXxx, DbXxxBase};
 use std::collections::BTreeMap;
 
 pub const JOB_F_C09: u8 = 60;
